@@ -8,6 +8,7 @@ pub mod exit_penalty;
 pub mod external_interaction;
 
 use base_functions::{ClaimRewardsResultType, DoubleMultiPayment, Wrapper};
+use common_errors::ERROR_NOT_ACTIVE;
 use common_structs::FarmTokenAttributes;
 use contexts::storage_cache::StorageCache;
 
@@ -190,6 +191,8 @@ pub trait Farm:
         &self,
         opt_orig_caller: OptionalValue<ManagedAddress>,
     ) -> DoubleMultiPayment<Self::Api> {
+        require!(self.is_active(), ERROR_NOT_ACTIVE);
+
         let caller = self.blockchain().get_caller();
         let orig_caller = self.get_orig_caller_from_opt(&caller, opt_orig_caller);
         self.migrate_old_farm_positions(&orig_caller);
